@@ -5,7 +5,7 @@
 From Coq Require Import List Bool Arith NArith ZArith String.
 From Coq Require Import Ascii.
 From DS Require Import Base.C04_Text Base.C04_Decimal Model.C04_Fmt Gen.C04_FmtSpecs.
-From DS Require Import Model.C04_Xyz Model.C04_Rawxyz Model.C04_Pdffit Model.C04_Discus.
+From DS Require Import Model.C04_Xyz Model.C04_Rawxyz Model.C04_Pdffit Model.C04_Discus Model.C04_Pdb Model.C04_Xcfg Model.C04_Cif.
 Import ListNotations.
 
 Definition dec_of_tok (t : str) : option dec :=
@@ -123,6 +123,147 @@ Definition toks_of_dstru (S : dstru) : list str :=
   [d_title S; d_spcgr S; tok_of_dec (d_sphere S); tok_of_dec (d_stepcut S)] ++ toks6 (d_cell S) ++
   flat_map (fun a => da_el a :: toks3 (da_xyz a) ++ [tok_of_dec (da_b a)]) (d_atoms S).
 
+(* pdb : title cell(6) then 14 tokens per atom: name el x y z occ B iso(0/1) U11 U22 U33 U12 U13 U23 *)
+Fixpoint batoms_of_toks (fuel : nat) (ts : list str) : option (list batom) :=
+  match fuel with
+  | O => None
+  | S f =>
+    match ts with
+    | [] => Some []
+    | nm :: el :: r =>
+        match decs_of_toks (firstn 5 r), nth_error r 5, decs_of_toks (firstn 6 (skipn 6 r)), batoms_of_toks f (skipn 12 r) with
+        | Some [x; y; z; o; b], Some iso, Some [u1; u2; u3; u4; u5; u6], Some l =>
+            Some (BAtom nm el (x, y, z) o b (str_eqb iso (s"1")) ((u1, u2, u3), (u4, u5, u6)) :: l)
+        | _, _, _, _ => None
+        end
+    | _ => None
+    end
+  end.
+Definition bstru_of_toks (ts : list str) : option bstru :=
+  match ts with
+  | ttl :: r =>
+      match decs_of_toks (firstn 6 r), batoms_of_toks (S (List.length r)) (skipn 6 r) with
+      | Some [a; b; c; al; be; ga], Some atoms => Some (BStru ttl ((a, b, c), (al, be, ga)) atoms)
+      | _, _ => None
+      end
+  | [] => None
+  end.
+(* read answer: title hascell cell(6) then 16 tokens per atom: name el x y z occ hasB B aniso u(6) *)
+Definition toks_of_ratom (a : ratom) : list str :=
+  [r_name a; r_el a] ++ toks3 (r_rc a) ++ [tok_of_dec (r_occ a)] ++
+  (match r_B a with Some b => [tok_of_bool true; tok_of_dec b] | None => [tok_of_bool false; tok_of_dec dzero] end) ++
+  [tok_of_bool (r_aniso a)] ++ (match r_u a with [] => map tok_of_dec [dzero; dzero; dzero; dzero; dzero; dzero] | l => map tok_of_dec l end).
+Definition toks_of_rstru (S : rstru) : list str :=
+  [q_title S] ++ (match q_cell S with Some c => tok_of_bool true :: toks6 c | None => tok_of_bool false :: toks6 unit_cell end) ++
+  flat_map toks_of_ratom (q_atoms S).
+
+Definition run_pdb (op : str) (ts : list str) : option (list str) :=
+  if str_eqb op op_read then match ts with [t] => option_map toks_of_rstru (read_pdb t) | _ => None end
+  else match bstru_of_toks ts with
+       | None => None
+       | Some X =>
+           if str_eqb op op_write then option_map (fun t => [t]) (write_pdb X)
+           else if str_eqb op op_canon then Some (toks_of_rstru (canon_pdb X))
+           else if str_eqb op op_repr then Some [tok_of_bool (repr_pdb X)]
+           else None
+       end.
+
+(* xcfg : A base(9) nkept keptnames... then per atom: el pos(3) occ u(6) aniso(0/1) kept(nkept) *)
+Fixpoint catoms_of_toks (nk : nat) (fuel : nat) (ts : list str) : option (list catom) :=
+  match fuel with
+  | O => None
+  | S f =>
+    match ts with
+    | [] => Some []
+    | el :: r =>
+        match decs_of_toks (firstn 10 r), nth_error r 10, decs_of_toks (firstn nk (skipn 11 r)), catoms_of_toks nk f (skipn (11 + nk) r) with
+        | Some [x; y; z; o; u1; u2; u3; u4; u5; u6], Some an, Some kept, Some l =>
+            Some (CAtom el (x, y, z) o ((u1, u2, u3), (u4, u5, u6)) (str_eqb an (s"1")) kept :: l)
+        | _, _, _, _ => None
+        end
+    end
+  end.
+Definition cstru_of_toks (ts : list str) : option cstru :=
+  match ts with
+  | a :: r =>
+      match dec_of_tok a, decs_of_toks (firstn 9 r), nth_error r 9 with
+      | Some vA, Some [b1; b2; b3; b4; b5; b6; b7; b8; b9], Some nk =>
+          match nat_of_tok nk with
+          | Some k =>
+              let names := firstn k (skipn 10 r) in
+              match catoms_of_toks k (S (List.length r)) (skipn (10 + k) r) with
+              | Some atoms => Some (CStru vA ((b1, b2, b3), (b4, b5, b6), (b7, b8, b9)) names atoms)
+              | None => None
+              end
+          | None => None
+          end
+      | _, _, _ => None
+      end
+  | [] => None
+  end.
+(* read answer: n A base(9) naux names... then per atom: el fields(3 + naux) *)
+Definition toks_of_qcstru (S : qcstru) : list str :=
+  let '(r1, r2, r3) := qc_base S in
+  [int_body (qc_n S); tok_of_dec (qc_A S)] ++ toks3 r1 ++ toks3 r2 ++ toks3 r3 ++ [tok_of_nat (List.length (qc_aux S))] ++ qc_aux S ++
+  flat_map (fun a => qc_el a :: map tok_of_dec (qc_fields a)) (qc_atoms S).
+
+Definition run_xcfg (op : str) (ts : list str) : option (list str) :=
+  if str_eqb op op_read then match ts with [t] => option_map toks_of_qcstru (read_xcfg t) | _ => None end
+  else match cstru_of_toks ts with
+       | None => None
+       | Some X =>
+           if str_eqb op op_write then option_map (fun t => [t]) (write_xcfg X)
+           else if str_eqb op op_canon then Some (toks_of_qcstru (canon_xcfg X))
+           else if str_eqb op op_repr then Some [tok_of_bool (repr_xcfg X)]
+           else None
+       end.
+
+(* cif : title date cell(6) then 13 tokens per atom: el x y z uiso aniso(0/1) occ U11 U22 U33 U12 U13 U23 *)
+Fixpoint fatoms_of_toks (fuel : nat) (ts : list str) : option (list fatom) :=
+  match fuel with
+  | O => None
+  | S f =>
+    match ts with
+    | [] => Some []
+    | el :: r =>
+        match decs_of_toks (firstn 4 r), nth_error r 4, decs_of_toks (firstn 7 (skipn 5 r)), fatoms_of_toks f (skipn 12 r) with
+        | Some [x; y; z; u], Some an, Some [o; u1; u2; u3; u4; u5; u6], Some l =>
+            Some (FAtom el (x, y, z) u (str_eqb an (s"1")) o ((u1, u2, u3), (u4, u5, u6)) :: l)
+        | _, _, _, _ => None
+        end
+    end
+  end.
+Definition fstru_of_toks (ts : list str) : option fstru :=
+  match ts with
+  | ttl :: date :: r =>
+      match decs_of_toks (firstn 6 r), fatoms_of_toks (S (List.length r)) (skipn 6 r) with
+      | Some [a; b; c; al; be; ga], Some atoms => Some (FStru ttl date ((a, b, c), (al, be, ga)) atoms)
+      | _, _ => None
+      end
+  | _ => None
+  end.
+(* read answer: cell(6) then per atom: label el x y z uiso aniso occ hasU u(6) *)
+Definition toks_of_gstru (S : gstru) : list str :=
+  toks6 (g_cell S) ++
+  flat_map (fun a => [g_label a; g_el a] ++ toks3 (g_xyz a) ++ [tok_of_dec (g_uiso a); tok_of_bool (g_aniso a); tok_of_dec (g_occ a)] ++
+                     (match g_u a with [] => tok_of_bool false :: map tok_of_dec [dzero; dzero; dzero; dzero; dzero; dzero]
+                                    | l => tok_of_bool true :: map tok_of_dec l end)) (g_atoms S).
+(* tokens of the written layout: ncell (k v)* nsitecols cols* nsiterows (row cells)* nanisocols cols* nanisorows (row cells)* *)
+Definition toks_of_block (b : cifblock) : list str :=
+  [tok_of_nat (List.length (cb_cell b))] ++ flat_map (fun kv => [fst kv; snd kv]) (rev (cb_cell b)) ++
+  [tok_of_nat (List.length (cb_site_cols b))] ++ cb_site_cols b ++ [tok_of_nat (List.length (cb_site_rows b))] ++ List.concat (cb_site_rows b) ++
+  [tok_of_nat (List.length (cb_aniso_cols b))] ++ cb_aniso_cols b ++ [tok_of_nat (List.length (cb_aniso_rows b))] ++ List.concat (cb_aniso_rows b).
+Definition run_cif (op : str) (ts : list str) : option (list str) :=
+  if str_eqb op (s"tokens") then
+    match ts with
+    | [t] => let ls := lines_of_text t in option_map toks_of_block (tokenize (S (List.length ls)) ls (CifBlock [] [] [] [] []))
+    | _ => None end
+  else if str_eqb op op_read then match ts with [t] => option_map toks_of_gstru (read_cif t) | _ => None end
+  else match fstru_of_toks ts with
+       | None => None
+       | Some X => if str_eqb op op_write then option_map (fun t => [t]) (write_cif X) else None
+       end.
+
 Definition run_gen {T} (of_toks : list str -> option T) (to_toks : T -> list str)
            (write : T -> option str) (read : str -> option T) (canon : T -> T) (repr : T -> bool) (op : str) (ts : list str) : option (list str) :=
   if str_eqb op op_read then match ts with [t] => option_map to_toks (read t) | _ => None end
@@ -140,4 +281,7 @@ Definition wire_run (fmt op : str) (ts : list str) : option (list str) :=
   else if str_eqb fmt (s"rawxyz") then run_x write_rawxyz read_rawxyz canon_rawxyz repr_rawxyz op ts
   else if str_eqb fmt (s"pdffit") then run_gen pstru_of_toks toks_of_pstru write_pdffit read_pdffit canon_pdffit repr_pdffit op ts
   else if str_eqb fmt (s"discus") then run_gen dstru_of_toks toks_of_dstru write_discus read_discus canon_discus repr_discus op ts
+  else if str_eqb fmt (s"pdb") then run_pdb op ts
+  else if str_eqb fmt (s"xcfg") then run_xcfg op ts
+  else if str_eqb fmt (s"cif") then run_cif op ts
   else None.
